@@ -131,7 +131,7 @@ def check_sample(rep, pa, desc, cont, gts, pivot_type, sample, log, labels_id):
     return bad, (line, recs_last, gt_units, dist, binf, bsup)
 
 
-def compare_with_model(rep, desc, pivot_type, sample, out, recs, gt_units, dist, binf, bsup, gts):
+def compare_with_model(rep, desc, pivot_type, sample, out, recs, gt_units, dist, binf, bsup, gts, labels_id):
     bad = []
     steps, rest = parse_trace(out)
     if rest != 0:
@@ -164,13 +164,13 @@ def compare_with_model(rep, desc, pivot_type, sample, out, recs, gt_units, dist,
         # the sampled annotator is the model's
         name = "Sampled_annotation %d" % i
         try:
-            got = sorted((u.segment.start, u.segment.end) for u in sample[name])
+            got = sorted((u.segment.start, u.segment.end, labels_id(u.annotation)) for u in sample[name])
         except KeyError:
             bad.append(("annotator-name", "no annotator %r in the sample" % name))
             continue
-        want = sorted((float(s), float(e)) for s, e, _ in stp["units"])
+        want = sorted((float(s), float(e), l) for s, e, l in stp["units"])
         want_set = sorted(set(want))
-        if len(got) != len(want_set) or any(not (near(a[0], b[0]) and near(a[1], b[1])) for a, b in zip(got, want_set)):
+        if len(got) != len(want_set) or any(not (near(a[0], b[0]) and near(a[1], b[1]) and a[2] == b[2]) for a, b in zip(got, want_set)):
             bad.append(("translated-units", "annotator %d: units %r, model (pivot %r, source annotator %d) %r" % (i, got, float(stp["pivot"]), stp["annotator"], want_set)))
         pivots.append((stp["pivot"], stp["from_avail"]))
     # output-level facts about the pivots
@@ -180,9 +180,15 @@ def compare_with_model(rep, desc, pivot_type, sample, out, recs, gt_units, dist,
         if pivot_type == "int_pivot" and fa and p.denominator != 1:
             bad.append(("pivot-not-whole", "integer mode but pivot %r" % float(p)))
         if fa:
+            lo, hi = recs[i]["uniform_args"][0], recs[i]["uniform_args"][1]
+            import math
+            holds_int = math.ceil(lo) <= hi
             for j in range(i):
                 if abs(p - pivots[j][0]) < frac(dist) - TOL:
-                    key = "int_pivot:truncated-into-zone" if pivot_type == "int_pivot" else "pivots-too-close"
+                    if pivot_type == "int_pivot" and not holds_int:
+                        rep.gray += 1      # the chosen segment holds no whole number: separation and wholeness cannot both hold
+                        continue
+                    key = "int-pivots-too-close" if pivot_type == "int_pivot" else "pivots-too-close"
                     bad.append((key, "pivots %r and %r are closer than half the average unit length %r (%s)" % (float(pivots[j][0]), float(p), float(dist), pivot_type)))
     return bad, steps
 
@@ -237,7 +243,7 @@ def run(rep, tier, seed, pa):
             rep.case()
             rep.violation("model-error", desc, "model rejected the recorded run no-failing-input-found")
             continue
-        bad, steps = compare_with_model(rep, desc, pivot_type, sample, out, recs, gt_units, dist, binf, bsup, gts)
+        bad, steps = compare_with_model(rep, desc, pivot_type, sample, out, recs, gt_units, dist, binf, bsup, gts, labels_id)
         rep.case(sample={"ground_truth": gts, "pivot_type": pivot_type, "pivots": [float(s["pivot"]) for s in steps], "dist": float(dist), "agree": not bad},
                  nontrivial_key=repr(desc) if len(gts) >= 3 else None)
         for key, what in bad:
@@ -276,7 +282,7 @@ def run(rep, tier, seed, pa):
         rep.case(sample={"scripted": "int witness", "pivots": pv})
         rep.count("scripted_witness")
         if abs(pv[0] - pv[1]) < 2.5:
-            rep.violation("int_pivot:truncated-into-zone", {"script": script, "pivots": pv},
+            rep.violation("int-pivots-too-close", {"script": script, "pivots": pv},
                           "scripted draws 37.2 then 39.7 (integer mode, half average length 2.5) give pivots %r" % (pv,))
     except Exception as e:
         rep.violation("script-raises", {"error": repr(e)}, "scripted witness raised %r no-failing-input-found" % (e,))
@@ -307,7 +313,7 @@ def replay(rep, data, pa):
     if pack is None:
         return False
     out = run_model([pack[0]])[0]
-    bad2, _ = compare_with_model(rep, data, data["pivot_type"], sample, out, *pack[1:], list(data["ground_truth"]))
+    bad2, _ = compare_with_model(rep, data, data["pivot_type"], sample, out, *pack[1:], list(data["ground_truth"]), lambda l: ids.setdefault(l, len(ids)))
     for k, w in bad + bad2:
         print("  ", k, w)
     return not (bad or bad2)
